@@ -426,9 +426,14 @@ Definition conn_view (s : scn) (i : nat) : option cview :=
       end in
     match drop_first sc with
     | Some (t, first, rest) =>
+      (* a first segment that arrives only after the probe window is not an answer to the probe: the
+         panel was silent (ASCII), and those bytes are ordinary traffic read by the line reader.
+         Within the margin around the window's end either reading is possible: not judged. *)
+      if window + margin <=? t then Some (mkCV false (tbytes_tr sc) (s_cancel s - acc) true)
+      else
       let rc := classify_reply (Some (t, first)) in
       let bin := match rc with RcAck | RcOtherFrame => true | _ => false end in
-      Some (mkCV bin (tbytes_tr rest) (s_cancel s - acc) (zlen first <=? 1000))
+      Some (mkCV bin (tbytes_tr rest) (s_cancel s - acc) ((zlen first <=? 1000) && (t + margin <=? window)))
     | None => Some (mkCV false [] (s_cancel s - acc) true)
     end
   | _, _ => None
